@@ -355,3 +355,210 @@ theorem oneVersion_of_check (db : Db) (S : Name → Prop) (h : oneVersionB db = 
   · exact h2
 
 end EupsModel.Setup
+
+namespace EupsModel.Setup
+
+/-! ### forward direction without `OneVersion`: `Supp` survives replacements
+
+When a product of the closure is replaced, its old version is unwound — and takes along everything its table names
+(`Cleared`, closures without `-j` and without `max_depth`); so whatever stays set up still has a set-up product of the
+closure that asked for it. -/
+
+theorem tableOf_mem (cfg : Cfg) (p : Name) (w : Ver) (a : Act) (h : a ∈ tableOf cfg (p, w)) :
+    ∃ d ∈ cfg.db.decls, d.name = p ∧ ∃ g, (g, a) ∈ d.table := by
+  unfold tableOf at h
+  cases hl : cfg.db.lookup (p, w) with
+  | none => rw [hl] at h; cases h
+  | some d =>
+    rw [hl] at h
+    obtain ⟨hd, hn, _⟩ := lookup_some cfg.db (p, w) d hl
+    exact ⟨d, hd, hn, mem_actions d cfg.exact a h⟩
+
+theorem supp_of_cleared {cfg : Cfg} {S : Name → Prop} {top : Name} {e e' : Env} (hs : Supp cfg S top e)
+    (hc : Cleared cfg S e e') (hsub : Sub e' e) : Supp cfg S top e' := by
+  intro m v hm hr
+  rcases hs m v hm (hsub.recs m v hr) with h1 | ⟨p, w, hp, hpw, o, j, x, y, t, hline⟩
+  · exact Or.inl h1
+  · right
+    cases hpe : e'.rec? p with
+    | none =>
+      have := hc p w hp hpw hpe m o j x y t hline
+      rw [hr] at this; cases this
+    | some w' =>
+      have : w' = w := by have := hsub.recs p w' hpe; rw [hpw] at this; exact (Option.some.inj this).symm
+      subst this
+      exact ⟨p, w', hp, hpe, o, j, x, y, t, hline⟩
+
+theorem asked_rank (cfg : Cfg) (rank : Name → Nat) (hdag : NameDag cfg.db rank) (S : Name → Prop) (top : Name) (e : Env)
+    (n : Name) (h : Asked cfg S top e n) :
+    n = top ∨ ∃ p w, S p ∧ e.rec? p = some w ∧ rank n < rank p ∧ ∃ o j x y t, Act.dep n o j x y t ∈ tableOf cfg (p, w) := by
+  rcases h with h | ⟨p, w, hp, hpw, o, j, x, y, t, hline⟩
+  · exact Or.inl h
+  · obtain ⟨dp, hdp, hname, g, hg⟩ := tableOf_mem cfg p w _ hline
+    have := hdag dp hdp g n o j x y t hg
+    rw [hname] at this
+    exact Or.inr ⟨p, w, hp, hpw, this, o, j, x, y, t, hline⟩
+
+/-- `Asked` survives a change of records that leaves the names of higher rank alone -/
+theorem asked_of_frame (cfg : Cfg) (rank : Name → Nat) (hdag : NameDag cfg.db rank) (S : Name → Prop) (top : Name)
+    (e e' : Env) (n : Name) (h : Asked cfg S top e n)
+    (hfr : ∀ m, m ≠ n → rank n ≤ rank m → e'.rec? m = e.rec? m) : Asked cfg S top e' n := by
+  rcases asked_rank cfg rank hdag S top e n h with h1 | ⟨p, w, hp, hpw, hr, o, j, x, y, t, hline⟩
+  · exact Or.inl h1
+  · exact Or.inr ⟨p, w, hp, by rw [hfr p (by intro e; rw [e] at hr; omega) (by omega)]; exact hpw, o, j, x, y, t, hline⟩
+
+def SuppSpec2 (cfg : Cfg) (S : Name → Prop) (top : Name) (rec : Rec) : Prop :=
+  ∀ depth vro n ver vexpr s s', S n → Asked cfg S top s.env n → AlreadyOK cfg.db s.already →
+    WellOwned cfg s.env → NoResidue Empty s.env → RecsDeclared cfg.db s.env → Supp cfg S top s.env →
+    rec true depth false vro n ver vexpr s = .ok s' → Supp cfg S top s'.env ∧ RecsDeclared cfg.db s'.env
+
+theorem acts_true_supp2 (cfg : Cfg) (rank : Name → Nat) (S : Name → Prop) (top : Name) (hcl : Closed cfg.db S)
+    (hnj : NoJust cfg.db S) (rec : Rec) (hrec : RecOK cfg rank rec) (hsp : SuppSpec2 cfg S top rec) (depth : Nat)
+    (vro : List VroEnt) (d : Decl) (hc : Canon cfg.db d) (hSd : S d.name) (l : List Act)
+    (hl : ∀ a ∈ l, a ∈ d.actions cfg.exact)
+    (hrank : ∀ n o j v x t, Act.dep n o j v x t ∈ l → rank n < rank d.name) :
+    ∀ s s', AlreadyOK cfg.db s.already → WellOwned cfg s.env → NoResidue Empty s.env → RecsDeclared cfg.db s.env →
+      Supp cfg S top s.env → s.env.rec? d.name = some d.ver →
+      acts rec cfg true depth false vro d l s = .ok s' → Supp cfg S top s'.env ∧ RecsDeclared cfg.db s'.env := by
+  induction l with
+  | nil => intro s s' _ _ _ hd hs _ h; simp [acts] at h; subst h; exact ⟨hs, hd⟩
+  | cons a rest ih =>
+    have hl' : ∀ a ∈ rest, a ∈ d.actions cfg.exact := fun a hm => hl a (List.mem_cons_of_mem _ hm)
+    have hrank' : ∀ n o j v x t, Act.dep n o j v x t ∈ rest → rank n < rank d.name :=
+      fun n o j v x t hm => hrank n o j v x t (List.mem_cons_of_mem _ hm)
+    intro s s' ha hw hn hd hs hr h
+    have htab : tableOf cfg (d.name, d.ver) = d.actions cfg.exact := tableOf_canon cfg d hc
+    by_cases hdep : ∃ n o j v x t, a = .dep n o j v x t
+    · obtain ⟨n, o, j, v, x, t, rfl⟩ := hdep
+      have hmem := hl _ (List.mem_cons_self)
+      have hline : Act.dep n o j v x t ∈ tableOf cfg (d.name, d.ver) := by rw [htab]; exact hmem
+      obtain ⟨g, hg⟩ := mem_actions d cfg.exact _ hmem
+      have hdmem := (lookup_some cfg.db d.prod d hc).1
+      have hSn : S n := hcl d hdmem hSd g n o j v x t hg
+      have hj : j = false := hnj d hdmem hSd g n o j v x t hg
+      subst hj
+      have hnr : rank n < rank d.name := hrank n o false v x t (by simp)
+      simp only [acts] at h
+      split at h
+      · exact ih hl' hrank' s s' ha hw hn hd hs hr h
+      · split at h
+        · rename_i s1 hr1
+          obtain ⟨hs1, hd1⟩ := hsp _ _ _ _ _ _ _ hSn (Or.inr ⟨d.name, d.ver, hSd, hr, o, false, v, x, t, hline⟩)
+            ha hw hn hd hs hr1
+          obtain ⟨hn1, hw1⟩ := hrec.spec _ _ _ _ _ _ _ _ _ ha hw hn hr1
+          have hrec1 : s1.env.rec? d.name = some d.ver := by
+            rw [hrec.frame _ _ _ _ _ _ _ _ _ ha hr1 d.name (by intro e; rw [e] at hnr; omega) (by omega)]; exact hr
+          exact ih hl' hrank' s1 s' (hrec.already _ _ _ _ _ _ _ _ _ ha (by rw [hr1]; rfl)) hw1 hn1 hd1 hs1 hrec1 h
+        · cases h
+        · rename_i s1 hr1
+          have h1 : AlreadyOK cfg.db s1.already := hrec.already _ _ _ _ _ _ _ _ _ ha (by rw [hr1]; rfl)
+          split at h
+          · cases h
+          · exact ih hl' hrank' ⟨s.env, s.aliases, s.unaliased, s1.already⟩ s' h1 hw hn hd hs hr h
+        · rename_i s1 hr1
+          have h1 : AlreadyOK cfg.db s1.already := hrec.already _ _ _ _ _ _ _ _ _ ha (by rw [hr1]; rfl)
+          split at h
+          · cases h
+          · exact ih hl' hrank' ⟨s.env, s.aliases, s.unaliased, s1.already⟩ s' h1 hw hn hd hs hr h
+    · have hnd : ∀ n o j v x t, a ≠ .dep n o j v x t := fun n o j v x t e => hdep ⟨n, o, j, v, x, t, e⟩
+      rw [acts_cons_nondep rec cfg true depth false vro d a rest s hnd] at h
+      have hrecs : ∀ n, (a.apply true d.prod s).env.rec? n = s.env.rec? n := fun n => apply_rec? true d.prod a s n
+      have hatab : a ∈ tableOf cfg d.prod := by
+        have : tableOf cfg d.prod = d.actions cfg.exact := tableOf_canon cfg d hc
+        rw [this]; exact hl a (List.mem_cons_self)
+      obtain ⟨hn1, hw1⟩ := apply_true_spec cfg d.prod a s hatab hr hw hn
+      exact ih hl' hrank' _ s' (by simpa using ha) hw1 hn1 (fun n v h => hd n v (by rw [← hrecs]; exact h))
+        (supp_of_recs_eq hs hrecs) (by rw [hrecs]; exact hr) h
+
+theorem install_supp2 (cfg : Cfg) (rank : Name → Nat) (hdag : NameDag cfg.db rank) (S : Name → Prop) (top : Name)
+    (hcl : Closed cfg.db S) (hnj : NoJust cfg.db S) (rec : Rec) (hrec : RecOK cfg rank rec) (hclear : UnClear cfg S rec)
+    (hsp : SuppSpec2 cfg S top rec) (depth : Nat) (vro : List VroEnt) (d : Decl) (reason : Option VroEnt)
+    (hc : Canon cfg.db d) (hSd : S d.name) (s s' : St) (hask : Asked cfg S top s.env d.name)
+    (ha : AlreadyOK cfg.db s.already) (hw : WellOwned cfg s.env) (hn : NoResidue Empty s.env)
+    (hd : RecsDeclared cfg.db s.env) (hs : Supp cfg S top s.env)
+    (h : install rec cfg depth false vro d reason s = .ok s') :
+    Supp cfg S top s'.env ∧ RecsDeclared cfg.db s'.env := by
+  -- from a state in which `d.name` has no record: write the records and run the table
+  have tail : ∀ s1 : St, AlreadyOK cfg.db s1.already → WellOwned cfg s1.env → NoResidue Empty s1.env →
+      RecsDeclared cfg.db s1.env → Supp cfg S top s1.env → Asked cfg S top s1.env d.name → s1.env.rec? d.name = none →
+      acts rec cfg true depth false vro d (d.actions cfg.exact) (record d reason s1) = .ok s' →
+      Supp cfg S top s'.env ∧ RecsDeclared cfg.db s'.env := by
+    intro s1 h1 hw1 hn1 hd1 hs1 hask1 hnone hacts
+    have hgrow : ∀ m w, s1.env.rec? m = some w → (record d reason s1).env.rec? m = some w := by
+      intro m w hm
+      have hne : m ≠ d.name := by intro e; rw [e, hnone] at hm; cases hm
+      rw [record_rec?_other d reason s1 m hne]; exact hm
+    have hd2 : RecsDeclared cfg.db (record d reason s1).env := by
+      intro n v hr
+      by_cases hnd : n = d.name
+      · subst hnd
+        rw [record_rec?_same] at hr
+        have hv : d.ver = v := Option.some.inj hr
+        subst hv
+        exact ⟨d, hc⟩
+      · rw [record_rec?_other d reason s1 n hnd] at hr; exact hd1 n v hr
+    have lift : ∀ n, Asked cfg S top s1.env n → Asked cfg S top (record d reason s1).env n := by
+      intro n hask
+      rcases hask with h1 | ⟨p, w, hp, hpw, hline⟩
+      · exact Or.inl h1
+      · exact Or.inr ⟨p, w, hp, hgrow p w hpw, hline⟩
+    have hs2 : Supp cfg S top (record d reason s1).env := by
+      intro m v hm hr
+      by_cases hmd : m = d.name
+      · subst hmd; exact lift _ hask1
+      · rw [record_rec?_other d reason s1 m hmd] at hr
+        exact lift m (hs1 m v hm hr)
+    obtain ⟨hn2, hw2⟩ := record_spec cfg d reason s1 hw1 hn1 hnone
+    exact acts_true_supp2 cfg rank S top hcl hnj rec hrec hsp depth vro d hc hSd _ (fun _ hm => hm)
+      (canon_deps_rank cfg.db rank hdag d hc cfg.exact) (record d reason s1) s'
+      (alreadyOK_aset cfg.db _ h1 d reason hc) hw2 hn2 hd2 hs2 (record_rec?_same d reason s1) hacts
+  unfold install at h
+  cases hsp' : setupProd cfg.db s.env d.name with
+  | none =>
+    rw [hsp'] at h
+    exact tail s ha hw hn hd hs hask (setupProd_none_of_declared cfg.db s.env hd d.name hsp') h
+  | some sd =>
+    rw [hsp'] at h
+    simp only at h
+    split at h
+    · simp at h; subst h; exact ⟨hs, hd⟩
+    · split at h
+      · cases h
+      · rename_i s1 hr1
+        obtain ⟨hn1, hsub⟩ := hrec.unspec Empty _ _ _ _ _ _ _ _ hw hn hr1
+        have hc1 := hclear _ _ _ _ _ _ _ hSd hw hd hr1
+        have hask1 : Asked cfg S top s1.env d.name :=
+          asked_of_frame cfg rank hdag S top s.env s1.env d.name hask
+            (fun m hm hr => hrec.frame _ _ _ _ _ _ _ _ _ ha hr1 m hm hr)
+        exact tail s1 (hrec.already _ _ _ _ _ _ _ _ _ ha (by rw [hr1]; rfl)) (hw.of_sub hsub) hn1 (hd.of_sub hsub)
+          (supp_of_cleared hs hc1 hsub) hask1 (hrec.unsets _ _ _ _ _ _ _ _ hw hr1) h
+      · rename_i s1 hr1
+        have := (hrec.unfail _ _ _ _ _ _ _ _).2 hr1
+        rw [hsp'] at this; cases this
+      · rename_i s1 hr1
+        exact absurd hr1 (hrec.unfail _ _ _ _ _ _ _ _).1
+
+theorem setup_supp2 (cfg : Cfg) (rank : Name → Nat) (hdag : NameDag cfg.db rank) (S : Name → Prop) (top : Name)
+    (hmd : cfg.maxDepth = none) (hcl : Closed cfg.db S) (hnj : NoJust cfg.db S) :
+    ∀ fuel, SuppSpec2 cfg S top (setup cfg fuel) := by
+  intro fuel
+  induction fuel with
+  | zero => intro depth vro n ver vexpr s s' _ _ _ _ _ _ _ h; simp [setup_zero] at h
+  | succ k ih =>
+    intro depth vro n ver vexpr s s' hSn hask ha hw hn hd hs h
+    rw [setup_succ_true] at h
+    cases hres : resolve cfg.db cfg.keep s.already n ver vexpr depth vro.length vro with
+    | none => rw [hres] at h; cases h
+    | error => rw [hres] at h; cases h
+    | found d reason =>
+      rw [hres] at h
+      obtain ⟨hc, hname⟩ := resolve_spec cfg.db cfg.keep s.already ha n ver vexpr depth _ _ _ _ hres
+      have henv := register_env cfg depth d reason s
+      have := install_supp2 cfg rank hdag S top hcl hnj (setup cfg k) (setup_recOK cfg rank hdag k)
+        (setup_false_clear cfg S hmd hcl hnj k) ih depth vro d reason hc (by rw [hname]; exact hSn)
+        (register cfg depth d reason s) s' (by rw [henv, hname]; exact hask)
+        (register_already cfg depth d reason s ha hc) (by rw [henv]; exact hw) (by rw [henv]; exact hn)
+        (by rw [henv]; exact hd) (by rw [henv]; exact hs) h
+      exact this
+
+end EupsModel.Setup
